@@ -122,12 +122,96 @@ func rkResolvers(w *World) {
 	})
 	w.floor("recursive calls in resolveInFile", nRec, 1)
 
+	// the file searched for an import is found by the import's *path*: the list of a file's
+	// dependencies handed to Link is whatever the caller passed (any order, possibly more files),
+	// while Imports() is in source order; pairing import i with dependency i attaches the public
+	// flag of one import to another file. Every value that reaches the recursive call's file
+	// argument must come from a FindImportByPath(imp.Path()) call on the import of this iteration;
+	// an element of a deps slice selected by position is a violation.
+	ast.Inspect(body, func(x ast.Node) bool {
+		if !isRecurse(x) {
+			return true
+		}
+		c := x.(*ast.CallExpr)
+		if len(c.Args) == 0 {
+			return true
+		}
+		var origins []ast.Expr
+		var trace func(e ast.Expr, depth int)
+		trace = func(e ast.Expr, depth int) {
+			e = ast.Unparen(e)
+			if id, ok := e.(*ast.Ident); ok && depth < 4 {
+				found := false
+				ast.Inspect(body, func(y ast.Node) bool {
+					as, ok := y.(*ast.AssignStmt)
+					if !ok || len(as.Lhs) != len(as.Rhs) {
+						return true
+					}
+					for i, l := range as.Lhs {
+						if lid, ok := l.(*ast.Ident); ok && (info.Uses[lid] == info.Uses[id] || info.Defs[lid] == info.Uses[id]) && info.Uses[id] != nil {
+							found = true
+							trace(as.Rhs[i], depth+1)
+						}
+					}
+					return true
+				})
+				if found {
+					return
+				}
+			}
+			origins = append(origins, e)
+		}
+		trace(c.Args[0], 0)
+		for _, o := range origins {
+			key := "walk|dependency-by-path|" + types.ExprString(o)
+			ok := false
+			if oc, isCall := o.(*ast.CallExpr); isCall && len(oc.Args) == 1 {
+				if sel, isSel := ast.Unparen(oc.Fun).(*ast.SelectorExpr); isSel && sel.Sel.Name == "FindImportByPath" {
+					if pc, isPC := ast.Unparen(oc.Args[0]).(*ast.CallExpr); isPC {
+						if ps, isPS := ast.Unparen(pc.Fun).(*ast.SelectorExpr); isPS && ps.Sel.Name == "Path" {
+							ok = true
+						}
+					}
+				}
+			}
+			if ok {
+				w.ok(key, o.Pos(), "the file searched for an import is looked up by that import's path")
+			} else if _, isIx := o.(*ast.IndexExpr); isIx {
+				w.violation(key, o.Pos(), "the file searched for import i is taken by position ("+types.ExprString(o)+"): the dependencies given to Link are in the caller's order and may contain more files than the imports, so the public flag of one import is applied to another file — re-exported elements become invisible and non-public ones visible")
+			} else {
+				w.undecided(key, o.Pos(), "cannot tell how the file searched for an import is selected: "+types.ExprString(o))
+			}
+		}
+		return true
+	})
+
 	// eligibility guard dominates the recursion; skips before it are of known kinds
 	params := rif.Decl.Type.Params.List
 	pubOnly := ""
 	if len(params) >= 2 && len(params[1].Names) == 1 {
 		pubOnly = params[1].Names[0].Name
 	}
+	// variables holding the result of a type assertion of the file to the linker's own result type
+	assertedResult := map[types.Object]bool{}
+	ast.Inspect(body, func(x ast.Node) bool {
+		as, ok := x.(*ast.AssignStmt)
+		if !ok || len(as.Rhs) != 1 || len(as.Lhs) < 1 {
+			return true
+		}
+		if _, isTA := ast.Unparen(as.Rhs[0]).(*ast.TypeAssertExpr); !isTA {
+			return true
+		}
+		if id, ok := as.Lhs[0].(*ast.Ident); ok {
+			o := info.Defs[id]
+			if o == nil {
+				o = info.Uses[id]
+			}
+			if o != nil {
+				assertedResult[o] = true
+			}
+		}
+		return true
+	})
 	g := buildCFG(info, body)
 	d := &Dataflow{G: g, Must: true, Init: Facts{}}
 	d.Transfer = func(n ast.Node, in Facts) Facts {
@@ -156,6 +240,12 @@ func rkResolvers(w *World) {
 		}
 		if id, ok := leaf.(*ast.Ident); ok && id.Name == "ok" && !truth {
 			s = s.with("okmark") // f is not a *result: nothing to mark
+		}
+		// `linked, _ := f.(*result)` … `linked != nil`: on the nil edge f is not a *result either
+		if be, ok := leaf.(*ast.BinaryExpr); ok && (be.Op == token.NEQ || be.Op == token.EQL) && isNilIdent(info, be.Y) {
+			if id, ok := ast.Unparen(be.X).(*ast.Ident); ok && assertedResult[info.Uses[id]] && (be.Op == token.EQL) == truth {
+				s = s.with("okmark")
+			}
 		}
 		return s
 	}
